@@ -116,6 +116,7 @@ type interpreter struct {
 	keptUnknown int
 	watch     map[*value]string
 	watchHits []watchHit
+	race      *raceState
 
 	mapOrderNondet bool
 	sched          *scheduler
@@ -915,6 +916,9 @@ func (i *interpreter) mkViolation(kind, id, site string, m map[string]uint64, kn
 		}
 	}
 	v.Sched = append([]string(nil), i.schedTrace...)
+	if i.race != nil && len(i.race.reports) > 0 && strings.Contains(id, "race") {
+		v.Msg = strings.Join(i.race.reports, " ;; ")
+	}
 	return v
 }
 
